@@ -17,6 +17,8 @@ UNIVERSE = [
     {}, {"a": 1}, {"b": 2}, {"a": 1, "b": 2}, {"b": 3, "c": [1]}, {"c": {"a": 1}, "d": None},
     {"a": {"x": 1}}, {"x y": "s", "é": 1}, [], [1], [1, {"a": 2}], 5, "s", None, True,
     {"d": 1.5, "e": "", "f": [[]]}, {"a": [1, 2]},
+    # the same key holding maps with disjoint sub-keys, lists, nulls: still a clash
+    {"c": {"b": 2}}, {"a": {"y": 2}}, {"c": [2]}, {"d": None}, {"d": 0},
 ]
 
 
@@ -110,7 +112,9 @@ def run_e2e(ctx, n):
                 dup_key = rng.choice(list(parts[src].keys()))
                 dst = rng.choice([i for i in range(nparts + 1) if i != src])
                 parts[dst] = dict(parts[dst])
-                parts[dst][dup_key] = rng.choice([doc[dup_key], 12345])
+                orig = doc[dup_key]
+                alt = {'other_sub_key_%d' % k: 1} if isinstance(orig, dict) else ([] if isinstance(orig, list) else (None if orig is not None else 0))
+                parts[dst][dup_key] = rng.choice([orig, 12345, alt, alt])
         d = os.path.join(ctx.wd, 'i%d' % k)
         files = {'r.guard': gen.render_file(prog), 'whole.json': json.dumps(doc), 'data.json': json.dumps(parts[0])}
         # the union in the order the tool builds it: P1 .. Pn, then D
